@@ -61,7 +61,7 @@ RULE = ("fake-integrator cases: random entry point (integrateFuncJac, integrate2
         "and catalogue models of pygom.common_models (SIS, SIR, SEIR, Lotka_Volterra, SIR_norm, "
         "FitzHugh, vanDerPol, Lorenz, the time-dependent SIS_Periodic and the stiff Robertson system (odeint / lsoda / bdf entry points only); "
         "equations re-written by hand from their docstrings / source). SCENARIO of every runtime case: t0 near the origin (0, 1/2, -1, 3) or, 40 %, far "
-        "from it with both signs (+-738000, +-1e4, 1e6, -123456.5, 1e7, -1e8, 738000.5: spacing below 1e-5 |t|), horizon x 1 / 2^-10 / 2^-20 / 2^-30 "
+        "from it with both signs (+-738000, +-1e4, +-1e6, -123456.5, 1e7, 738000.5: spacing below 1e-5 |t|; a case whose whole horizon is shorter than 1e6 ulps of t is rejected), horizon x 1 / 2^-10 / 2^-20 / 2^-30 "
         "(t0 + tiny) / x 8 for decaying models (long); GRID MODIFICATIONS (weights none 10, repeat 3, tiny 2, ulp 1, at-t0 1, ulp-from-t0 1, one 2): "
         "times repeated twice or three times, neighbours 4 / 64 / 2^20 ulps apart, neighbours one ulp apart, a first time equal to t0, a first "
         "time one ulp after t0, a one-point grid. Every row is judged against the reference integrated in the REAL time (repeated times share "
@@ -97,7 +97,7 @@ RULE = ("fake-integrator cases: random entry point (integrateFuncJac, integrate2
         "scipy.integrate.ode based entry points on a zero-length step is tagged, not judged). A session is non-trivial when every "
         "reference moved by >1e-3, at least one solve was judged and (history, siblings) at least one changed configuration has a "
         "reference differing by >1e-3 from the first one's. Sessions sit near the origin or (30 %) far from it (tbase +-738000, +-1e4, 1e6, "
-        "-1e7, -123456.5); a quarter of their generated models are first order in the states, a fifth time-dependent")
+        "-1e6, -123456.5); a quarter of their generated models are first order in the states, a fifth time-dependent")
 ASSUMPTIONS = ["PARTIAL: scipy's integrators (odeint; ode: lsoda/vode/dopri5/dop853) approximate the flow within tolerance - a "
                "hypothesis of the Lean theorems (Laws S: identity + semigroup of an ideal flow), validated on every run: "
                "|row - ref| <= 1e-6 (1+|ref|) against solve_ivp DOP853 rtol=atol=1e-12 (Radau cross-check <= 1e-8 on a subset)",
@@ -241,8 +241,9 @@ def gen_fake(rng):
 
 
 T0_NEAR = ["0", "0", "1/2", "-1", "3"]
-# far from the origin, both signs: calendar-style ordinal days, 1e4 .. 1e8 (at 1e8 one ulp is 1.5e-8)
-T0_FAR = ["738000", "-738000", "10000", "-10000", "1000000", "-246913/2", "10000000", "-100000000", "1476001/2"]
+# far from the origin, both signs: calendar-style ordinal days, 1e4 .. 1e7
+# (not further out: at |t| = 1e8 one ulp is 1.5e-8 and scipy's integrators themselves lose the 1e-8 accuracy the acceptance needs)
+T0_FAR = ["738000", "-738000", "10000", "-10000", "1000000", "-246913/2", "10000000", "-1000000", "1476001/2"]
 HSCALE_TINY = ["1/1024", "1/1048576", "1/1073741824"]
 GRID_MODS = [("none", 10), ("repeat", 3), ("tiny", 2), ("ulp", 1), ("at-t0", 1), ("ulp-from-t0", 1), ("one", 2)]
 MODEL_FAMILIES = [("general", 10), ("general-time", 3), ("tiny-model", 2), ("chain", 3), ("inflow", 4), ("const-ode", 4), ("timecoef", 4),
@@ -261,6 +262,8 @@ def gen_scenario(rng, far_ok=True, long_ok=False):
         hs = rng.choice(HSCALE_TINY[:1] if far else HSCALE_TINY)      # far away 2^-30 of a horizon is below one ulp
     else:
         hs = "8" if long_ok else "1"
+    if abs(Fraction(t0)) >= 10 ** 7:
+        hs = "1"            # a horizon of 1e-3 there is only 5e5 ulps long: the integrators' own steps are quantised
     mods = []
     k = gen.wchoice(rng, GRID_MODS)
     if k == "repeat":
@@ -770,6 +773,8 @@ def run_fake(case):
 def gen_fake_session(rng):
     n = rng.randint(1, 3)
     t0 = dyadic(rng, -2, 2, 4)
+    far = rng.choice([738000, -738000, 10000, -(2 ** 24)]) if rng.random() < 0.2 else 0     # the whole session far from the origin
+    t0 += far
     pool = []
     for _ in range(rng.randint(1, 3)):
         k = rng.randint(1, 5)
@@ -792,11 +797,11 @@ def gen_fake_session(rng):
     for _ in range(rng.randint(4, 14)):
         k = gen.wchoice(rng, [("setT0", 3), ("setX0", 3), ("setBoth", 2), ("integrate", 4), ("solve_determ", 2), ("integrate2", 4)])
         if k == "setT0":
-            ops.append({"k": k, "t": fr(rng.choice([t0, dyadic(rng, -2, 2, 4)]))})
+            ops.append({"k": k, "t": fr(rng.choice([t0, far + dyadic(rng, -2, 2, 4)]))})
         elif k == "setX0":
             ops.append({"k": k, "x": [fr(dyadic(rng, -4, 4)) for _ in range(n)]})
         elif k == "setBoth":
-            ops.append({"k": k, "x": [fr(dyadic(rng, -4, 4)) for _ in range(n)], "t": fr(rng.choice([t0, dyadic(rng, -2, 2, 4)]))})
+            ops.append({"k": k, "x": [fr(dyadic(rng, -4, 4)) for _ in range(n)], "t": fr(rng.choice([t0, far + dyadic(rng, -2, 2, 4)]))})
         elif k == "solve_determ" and rng.random() < 0.05:
             ops.append({"k": k, "t": {"none": True}, "container": "None"})
         else:
@@ -1032,8 +1037,10 @@ def direct_solver_error(f, x0, t0, grid, ref):
     out = {}
     for key, kw in (("default", {}), ("1e-10", {"rtol": 1e-10, "atol": 1e-10})):
         try:
-            y = odeint(lambda x, t: f(t, x), x0, np.append(t0, grid), mxstep=10000, **kw)
-            out[key] = float(np.max(np.abs(y[1:] - ref) / (1.0 + np.abs(ref))))
+            y, o = odeint(lambda x, t: f(t, x), x0, np.append(t0, grid), mxstep=10000, full_output=True, **kw)
+            # odeint does not raise when lsoda refuses or gives up: it returns uninitialised rows (often zeros, often not) and says
+            # so in its message only
+            out[key] = float(np.max(np.abs(y[1:] - ref) / (1.0 + np.abs(ref)))) if o["message"] == "Integration successful." else float("inf")
         except Exception:
             out[key] = float("inf")
     return out
@@ -1070,6 +1077,8 @@ def bucket(r):
 
 def judge(sig, sol, ref, x0, grid, origin, viol, margins, key, acc=TOL):
     """the property on one returned array: row count, origin row, order/accuracy (|row - ref| <= acc (1+|ref|))"""
+    if not np.isfinite(acc):
+        return          # scipy's own odeint reports failure on this instance: the odeint-based entry points are not judged
     n_exp = len(grid) + (1 if origin else 0)
     a = np.asarray(sol, dtype=float)
     if a.ndim != 2 or a.shape[0] != n_exp or a.shape[1] != len(x0):
@@ -1146,6 +1155,11 @@ def run_runtime(case):
     grid = apply_gridmods(t0, grid, case.get("gridmods", []))
     if any(b < a for a, b in zip([t0] + grid, grid)):
         raise ValueError("generator: the grid is not ascending")
+    span = grid[-1] - t0
+    if 0 < span < 1e6 * float(np.spacing(max(abs(t0), abs(grid[-1])))) and not all(t == grid[0] for t in grid):
+        # the whole horizon is shorter than a million ulps of t: the internal steps of every integrator are quantised and scipy
+        # itself is no longer accurate to 1e-8 there (measured: errors up to 1e-4 from vode at |t| = 1e8, horizon 2e-3)
+        return {"nontrivial": False, "mismatches": mism, "violations": viol, "tags": tags + ["rejected:horizon-below-1e6-ulps-of-t"]}
     if degenerate_steps(t0, grid):
         tags.append("grid-has-zero-or-few-ulp-step")
     tags.append("grid=%s" % case["grid_kind"])
@@ -1181,7 +1195,8 @@ def run_runtime(case):
     # pygom's `integrate` runs odeint at scipy's default tolerance (1.49e-8): on instances where scipy's own odeint,
     # on the Lean right-hand side, is itself further than TOL/20 from the reference the acceptance is 20 x that error
     acc_odeint = max(TOL, 20.0 * info["direct"]["default"])
-    tags.append("odeint-acceptance=%s" % ("1e-6" if acc_odeint == TOL else "20x-direct-odeint-error"))
+    tags.append("odeint-acceptance=%s" % ("1e-6" if acc_odeint == TOL else "20x-direct-odeint-error" if np.isfinite(acc_odeint) else
+                                          "none:scipy-odeint-reports-failure-on-this-instance"))
     if case.get("radau"):
         tags.append("radau-cross-checked")
     moved = float(np.max(np.abs(ref - x0) / (1.0 + np.abs(x0))))
@@ -1372,7 +1387,7 @@ def _session_model(rng, cat_prob, min_params=1, int_values=False, names_only=Non
 def _tbase(rng, integer=False):
     """where the session sits on the time axis: near the origin or far from it (both signs)"""
     if rng.random() < 0.3:
-        return rng.choice([738000, -738000, 10000, -10000, 10 ** 6, -(10 ** 7)] + ([] if integer else [Fraction(-246913, 2)]))
+        return rng.choice([738000, -738000, 10000, -10000, 10 ** 6, -(10 ** 6)] + ([] if integer else [Fraction(-246913, 2)]))
     return rng.choice([0, 0, 1, -1, 3] if integer else [0, 0, Fraction(1, 2), -1, 3])
 
 
